@@ -45,6 +45,7 @@ CONSTANTS Series, TimesRaw, TOff, Vals, Types, Apps,
                        \*   "KF-C20-2" Delete of a sample that is only in blocks but would be re-appended by WAL replay
                        \*   "KF-C20-4" CleanTombstones / Compact while a deleted sample below the newest in-order block's end is
                        \*              still in the WAL (dropping the emptied block lets a restart replay it)
+                       \*   "KF-C20-7" a Compact that truncates tombstoned head samples without writing a block over them
                        \*   "KF-C20-3" a Commit that stores an out-of-order sample inside an older head tombstone interval
                        \*   "KF-C01-5" a Commit that logs samples of a series whose series record may still be held back by
                        \*              another open appender (the record is logged later; replay drops the samples)
@@ -434,22 +435,30 @@ DropRisk == \E s \in Series : \E x \in Range(wino[s]) :
                x.t < blkMax /\ ~\E y \in stored[s] : y.t = x.t /\ Norm(y) = Norm(x)
 DropKF == IF DropRisk THEN {"KF-C20-4"} ELSE {}
 
-CompactB(st1, doOOO) ==
+CompactB(st1, doOOO, ks) ==
   /\ ino' = st1.ino /\ hdel' = st1.hdel /\ UNCHANGED <<wino, wgone, htomb>> /\ hMin' = st1.hMin /\ hMax' = st1.hMax
   /\ minValid' = st1.minValid /\ blkMax' = st1.blkMax
   /\ blk' = IF doOOO THEN [s \in Series |-> st1.blk[s] \cup OOOAll(s)] ELSE st1.blk
   /\ ooh' = IF doOOO THEN [s \in Series |-> <<>>] ELSE ooh
   /\ oom' = IF doOOO THEN [s \in Series |-> {}] ELSE oom
   /\ oghost' = IF doOOO THEN [s \in Series |-> oghost[s] \cup OOOAll(s)] ELSE oghost
-  /\ kfset' = kfset \cup DropKF
+  /\ kfset' = kfset \cup ks
   /\ UNCHANGED <<hInit, oooSeen, app, stored>>
-  /\ Step([a |-> "Compact", nblocks |-> st1.n, exp |-> ExpAll(stored), kf |-> IF DropRisk THEN "KF-C20-4" ELSE ""])
+  /\ Step([a |-> "Compact", nblocks |-> st1.n, exp |-> ExpAll(stored),
+           kf |-> IF "KF-C20-7" \in ks THEN "KF-C20-7" ELSE IF DropRisk THEN "KF-C20-4" ELSE ""])
 
-CompactA(st1) == CompactB(st1, st1.n > 0 /\ oooSeen)
+\* KF-C20-7: the loop truncates deleted (tombstoned) in-order samples for which no block is written (every sample of
+\* the range was deleted), so minValidTime is not raised over them; their m-mapped chunk files stay on disk while the
+\* tombstone is dropped from memory (and later from the WAL checkpoint / is missing from a chunk snapshot): a restart
+\* loads the chunks again without the tombstone.
+GhostDelRisk(st1) == \E s \in Series : \E x \in Range(ino[s]) :
+                        x.t \in hdel[s] /\ x.t < st1.hMin /\ x.t >= st1.blkMax
+CompactKF(st1) == DropKF \cup (IF GhostDelRisk(st1) THEN {"KF-C20-7"} ELSE {})
+
+CompactA(st1) == CompactKF(st1) \subseteq AllowKF /\ CompactB(st1, st1.n > 0 /\ oooSeen, CompactKF(st1))
 
 Compact ==
   /\ "Compact" \in Acts
-  /\ DropKF \subseteq AllowKF
   /\ NoOpenApp
   /\ hInit
   /\ CompactA(HeadLoop([ino |-> ino, hdel |-> hdel, blk |-> blk, hMin |-> hMin, hMax |-> hMax, minValid |-> minValid,
